@@ -6,6 +6,8 @@ use serde::forward_to_deserialize_any;
 use crate::Output as _;
 
 static mut DE_TOUCHED: bool = false;
+static mut DOC_LEN: usize = 0;
+static mut PRETTY_CALLS: usize = 0;
 
 #[derive(Debug)]
 struct DeErr;
@@ -57,6 +59,7 @@ fn toml_ensure_one_use_contract() {
 /// before the deserializer is touched and without a single writer call.
 #[kani::proof]
 #[kani::unwind(3)]
+#[kani::stub(::toml::to_string_pretty, to_string_pretty_contract)]
 fn toml_second_use_refused_before_any_work() {
 	let mut out = Output::new(W { writes: 0, bytes: 0, fail: false });
 	out.used = true;
@@ -71,26 +74,38 @@ fn toml_second_use_refused_before_any_work() {
 
 /// First use with a root that is not a table (boolean / integer / float, any payload) or with a failing
 /// deserializer: Err, zero writer calls, and the single use is consumed (a later document is refused).
-#[kani::proof]
-#[kani::unwind(3)]
-fn toml_non_table_root_refused_without_write() {
+/// One harness per root kind: a toml::Value whose variant is symbolic cannot be dropped under CBMC.
+fn non_table_root(k: u8) {
 	let mut out = Output::new(W { writes: 0, bytes: 0, fail: false });
-	let k: u8 = kani::any(); kani::assume(k < 4);
 	let r = out.transcode_from(MockDe { kind: k });
 	assert!(r.is_err(), "a non-table root was accepted");
 	assert!(unsafe { DE_TOUCHED });
 	assert!(out.w.writes == 0, "bytes written for a refused document");
 	assert!(out.used, "the use mark must be set before deserialization starts");
+	assert!(unsafe { PRETTY_CALLS } == 0);
 	std::mem::forget(r);
-	kani::cover!(k == 3, "deserializer error");
 }
-
-/// output_value on every non-table variant, payload symbolic: Err(NonTableRoot) and zero writer calls.
 #[kani::proof]
 #[kani::unwind(3)]
-fn toml_output_value_rejects_non_tables() {
+#[kani::stub(::toml::to_string_pretty, to_string_pretty_contract)]
+fn toml_bool_root_refused_without_write() { non_table_root(0); }
+#[kani::proof]
+#[kani::unwind(3)]
+#[kani::stub(::toml::to_string_pretty, to_string_pretty_contract)]
+fn toml_integer_root_refused_without_write() { non_table_root(1); }
+#[kani::proof]
+#[kani::unwind(3)]
+#[kani::stub(::toml::to_string_pretty, to_string_pretty_contract)]
+fn toml_float_root_refused_without_write() { non_table_root(2); }
+#[kani::proof]
+#[kani::unwind(3)]
+#[kani::stub(::toml::to_string_pretty, to_string_pretty_contract)]
+fn toml_failed_deserialization_consumes_the_use() { non_table_root(3); }
+
+/// output_value on every non-table variant, payload symbolic: Err(NonTableRoot), zero writer calls, the TOML
+/// serializer is never invoked.
+fn output_value_rejects(k: u8) {
 	let mut out = Output::new(W { writes: 0, bytes: 0, fail: false });
-	let k: u8 = kani::any(); kani::assume(k < 5);
 	let v = match k {
 		0 => ::toml::Value::Boolean(kani::any()),
 		1 => ::toml::Value::Integer(kani::any()),
@@ -101,13 +116,24 @@ fn toml_output_value_rejects_non_tables() {
 	let r = out.output_value(&v);
 	assert!(r.is_err());
 	assert!(out.w.writes == 0);
+	assert!(unsafe { PRETTY_CALLS } == 0);
 	std::mem::forget(r);
 	std::mem::forget(v);
 }
+#[kani::proof]
+#[kani::unwind(3)]
+#[kani::stub(::toml::to_string_pretty, to_string_pretty_contract)]
+fn toml_output_value_rejects_scalars() { let k: u8 = kani::any(); kani::assume(k < 3); output_value_rejects(k); }
+#[kani::proof]
+#[kani::unwind(3)]
+#[kani::stub(::toml::to_string_pretty, to_string_pretty_contract)]
+fn toml_output_value_rejects_datetime() { output_value_rejects(3); }
+#[kani::proof]
+#[kani::unwind(3)]
+#[kani::stub(::toml::to_string_pretty, to_string_pretty_contract)]
+fn toml_output_value_rejects_array() { output_value_rejects(4); }
 
 // Assumed contract of toml::to_string_pretty on a table: Ok(a complete document) or Err.
-static mut DOC_LEN: usize = 0;
-static mut PRETTY_CALLS: usize = 0;
 fn to_string_pretty_contract<T: ?Sized + ser::Serialize>(_value: &T) -> Result<String, ::toml::ser::Error> {
 	unsafe { PRETTY_CALLS += 1; }
 	if kani::any() { return Err(<::toml::ser::Error as ser::Error>::custom("unsupported")); }
